@@ -52,6 +52,15 @@ fn opt(s: &str) -> Option<u64> {
     }
 }
 
+/// frequency weight n/d; numerals of any length (10^308 is a valid attribute value)
+fn fweight(n: &str, d: &str) -> Option<f64> {
+    if n == "-" || d == "-" {
+        None
+    } else {
+        Some(n.parse::<f64>().expect("weight") / d.parse::<f64>().expect("weight"))
+    }
+}
+
 fn kname(k: u64) -> String {
     format!("k{}", k)
 }
@@ -247,10 +256,7 @@ fn write_snap(w: &mut impl Write, s: &Snap) {
 fn run_rt_case(header: &str, ops: &[String]) -> String {
     use std::fmt::Write as _;
     let t: Vec<&str> = header.split_whitespace().collect();
-    let fw = match (opt(t[7]), opt(t[8])) {
-        (Some(n), Some(d)) => Some(n as f64 / d as f64),
-        _ => None,
-    };
+    let fw = fweight(t[7], t[8]);
     let (pol, limit, ttl, maxmem) = (policy(t[3]), opt(t[4]).map(|x| x as usize), opt(t[5]), opt(t[6]).map(|x| x as usize));
     let store = AsyncStore { map: DashMap::new(), order: Mutex::new(VecDeque::new()), stats: cachelito_core::CacheStats::new() };
     let mut out = String::new();
@@ -347,10 +353,7 @@ fn main() {
             "CASE" => {
                 // CASE id fl pol limit ttl maxmem fwn fwd seed
                 let fl = match t[2] { "g" => Fl::G, "t" => Fl::T, "a" => Fl::A, x => panic!("flavour {}", x) };
-                let fw = match (opt(t[7]), opt(t[8])) {
-                    (Some(n), Some(d)) => Some(n as f64 / d as f64),
-                    _ => None,
-                };
+                let fw = fweight(t[7], t[8]);
                 r.cfg = Cfg {
                     fl,
                     pol: policy(t[3]),
